@@ -22,6 +22,7 @@ RULE = ('instruction instances of the integer core produced by GNU as from a tab
 RULE += ' Round 6: 16-bit addressing runs on the CPU as well (the tracee maps low pages and the last page of the first 64K): ALU, mov, shift, movzx, xchg, setcc/cmovcc, push/pop/call/jmp through [bx+si]-style operands, xlat and the five string instructions with si/di, with garbage in the upper register halves, wrapping sums and pointers stepping across 0xffff; meaning-free address-size prefixes on call/push/pop/ret/pushf/leave/jmp/jecxz/loop.'
 RULE += ' Round 7: 16-bit code-segment twins: every register-only row is also decoded with attrib opmode/admode u16 from the bytes that mean the same instruction there (66 removed or added); its lifted semantics must agree, on generated states, with the 32-bit decoding that the CPU comparison covers.'
 RULE += ' Round 8: segment registers pushed without prefix, under 66 and under 67 (esp and the written window compared, not the selector); rows that carry their own bytes for a size prefix given twice (67 67, 66 66, 66 67 66) on memory, string, xlat and loop forms; the 16-bit code-segment twins now include the memory-operand rows (66 and 67 both exchanged) and compare written memory.'
+RULE += ' Round 9: bit-string forms are keyed by the class of the run-time bit offset (negative, inside the operand, beyond it).'
 ASSUMPTIONS = ['the host CPU (single-stepped through Linux ptrace) is "an x86 processor"; faulting steps are excluded', 'the table of architecturally undefined results below is transcribed from the SDM',
                'vf/irsem.py gives the standard bit-vector meaning of the IR; memory is flat (segment annotations ignored)',
                'direct branches are compared by taken/not-taken (the lifter leaves the raw displacement as target; the architectural target is C17)']
